@@ -109,6 +109,25 @@ func runC11(e *Env) error {
 			}
 		}
 	}
+	// (s4) blocks and same-named variables/macros across an include boundary
+	for _, tc := range []struct{ name, main, inc, want string }{
+		{"nested-block-after-include", "{% block a %}A[{% include 'inc' %}]{% block n %}main-n{% endblock %}{% endblock %}|{% block z %}Z{% endblock %}", "{% block n %}inc-n{% endblock %}{% block z %}inc-z{% endblock %}", "A[inc-ninc-z]main-n|Z"},
+		{"block-before-and-after", "{% block n %}1{% endblock %}{% include 'inc' %}{% for i in [1, 2] %}{% block m %}m{{ i }}{% endblock %}{% include 'inc' %}{% endfor %}", "{% block n %}i-n{% endblock %}{% block m %}i-m{% endblock %}", "1i-ni-mm1i-ni-mm2i-ni-m"},
+		{"variable-named-like-macro", "{% macro label() %}M{% endmacro %}{% set label = 'VAL' %}{{ label }}|{% include 'inc' %}|{% include 'inc' with {'q': 1} %}", "{{ label }}{% if label == 'VAL' %}=v{% endif %}", "VAL|VAL=v|VAL=v"},
+		{"context-variable-named-like-macro", "{% macro cv() %}M{% endmacro %}{{ cv }}|{% include 'inc' %}|{% for i in [1] %}{% include 'inc' %}{% endfor %}", "{{ cv }}{{ cv|length }}", "CTX|CTX3|CTX3"},
+		{"from-imported-name-vs-variable", "{% from 'lib2' import field %}{% set field = 'VAR' %}{% include 'inc' %}", "{{ field }}", "VAR"},
+	} {
+		c := &Case{Templates: map[string]string{"main": tc.main, "inc": tc.inc, "lib2": "{% macro field() %}lib-field{% endmacro %}"}, Main: "main", Ctx: map[string]any{"cv": "CTX"}, FailAt: -1}
+		im, _, _, err := compareCase(e, c, "render-model-c11", "correspondence on blocks and same-named variables across an include")
+		if err != nil {
+			return err
+		}
+		r.Seen("s4:"+tc.name, true)
+		if im.Class != "" || im.Out != tc.want {
+			r.Violate(Violation{Key: "include-scope", What: fmt.Sprintf("%s: %q renders %q (%s), expected %q", tc.name, tc.main, im.Out, im.Class, tc.want),
+				Broken: "theorem C11_non_interference / C11_visibility (implementation-only oracle)", Replay: c.replay(im, Outcome{})})
+		}
+	}
 	relativeFailureOracle(e, "include-broken-template-forgiven", "theorem C11_ignore_missing (relative names; implementation-only oracle with a custom loader)")
 	// (s2) `ignore missing` forgives a template that does not exist — not one that a loader has and that does not parse
 	for _, form := range []string{"{% include 'broken' ignore missing %}", "{% include 'broken' %}", "{% include 'wrap' ignore missing %}"} {
